@@ -11,7 +11,7 @@ use samyama::query::QueryEngine;
 use serde_json::{json, Map, Value};
 use verif_harness::*;
 
-const KEYS: [&str; 3] = ["k", "p", "z"];
+const KEYS: [&str; 2] = ["k", "p"];
 const LABELS: [&str; 2] = ["A", "B"];
 
 fn tok(v: Option<&PropertyValue>) -> String {
@@ -56,6 +56,7 @@ fn expr(e: &Value) -> String {
         "mul" => format!("x * {}", lit(gs(e, "v"))),      // x * v
         "prop" => format!("n.{}", gs(e, "key")),          // n.key
         "propadd" => format!("n.{} + {}", gs(e, "key"), lit(gs(e, "v"))),
+        "divprop" => format!("{} / n.{}", lit(gs(e, "v")), gs(e, "key")),
         "divlit" => format!("{} / {}", lit(gs(e, "v")), lit(gs(e, "w"))),
         other => panic!("bad expression kind {other}"),
     }
@@ -196,12 +197,12 @@ fn rows_of(engine: &QueryEngine, st: &GraphStore, q: &str) -> Value {
             rows.sort();
             json!(rows)
         }
-        Ok(Err(e)) => json!({ "err": e }),
-        Err(p) => json!({ "panic": p }),
+        Ok(Err(e)) => json!([[format!("!err {e}")]]),
+        Err(p) => json!([[format!("!panic {p}")]]),
     }
 }
 
-fn observe(st: &GraphStore, cap: u64, universe: &[String]) -> Value {
+fn observe(st: &GraphStore, cap: u64, universe: &[String], with_probes: bool) -> Value {
     let mut nodes = Vec::new();
     let mut rels = Vec::new();
     for n in 1..=cap {
@@ -238,7 +239,7 @@ fn observe(st: &GraphStore, cap: u64, universe: &[String]) -> Value {
     // and through the label index API
     let engine = QueryEngine::new();
     let mut probes = Map::new();
-    for l in LABELS {
+    for l in LABELS.iter().filter(|_| with_probes) {
         let mut by: Vec<u64> = st.get_nodes_by_label(&samyama::graph::Label::new(l)).iter().map(|n| n.id.as_u64()).collect();
         by.sort();
         probes.insert(format!("label:{l}"), json!(by));
@@ -252,13 +253,18 @@ fn observe(st: &GraphStore, cap: u64, universe: &[String]) -> Value {
     cons.sort();
     let mut idx: Vec<String> = st.property_index.list_indexes().iter().map(|(l, p)| format!("{}.{}", l.as_str(), p)).collect();
     idx.sort();
-    json!({"nodes": nodes, "rels": rels, "probes": probes, "constraints": cons, "indexes": idx})
+    let mut o = json!({"nodes": nodes, "rels": rels, "constraints": cons, "indexes": idx, "universe": universe});
+    if with_probes {
+        o["probes"] = Value::Object(probes);
+    }
+    o
 }
 
 fn run(scripts: &str, trace: &str, opts: &Opts) -> Res<()> {
     let cap = opts.get_u64("cap", 12);
     let universe: Vec<String> = opts.get_str("universe", "i1,i2").split(',').map(|s| s.to_string()).collect();
     let verbose = opts.get_u64("verbose", 0) > 0;
+    let with_probes = opts.get_u64("probes", 0) > 0;
     let scripts = read_scripts(scripts)?;
     let mut tr = Trace::create(trace)?;
     for s in &scripts {
@@ -297,7 +303,7 @@ fn run(scripts: &str, trace: &str, opts: &Opts) -> Res<()> {
                     x.insert("rows".into(), json!([]));
                 }
             }
-            let obs = catch(|| observe(&st, cap, &universe)).unwrap_or_else(|p| json!({"panic": p}));
+            let obs = catch(|| observe(&st, cap, &universe, with_probes)).unwrap_or_else(|p| json!({"panic": p}));
             if verbose {
                 eprintln!("{} => {} {}\n   {}", text, x["res"], x.get("err").cloned().unwrap_or(json!("")), obs);
             }
